@@ -249,7 +249,8 @@ def check_C04(ctx):
     paths = ctx.run_driver(b, 'hist', shards=16, timeout=1200)
     paths += ctx.run_driver(b, 'alias', shards=16, timeout=1200)
     # rationals, floats, random states, strings and streams (valid and invalid input) under the same heap accounting
-    for d, shards in [('hist_qf', 8), ('c04_limbs', 8), ('c12', 4), ('c13', 4), ('c13s', 4), ('c19_hist', 4), ('c06_misc', 2), ('c06_mpz', 4), ('c17_stream', 8), ('c18_misc', 2)]:
+    # the bit, add/sub, root and combinatorial drivers pre-shrink every destination to the smallest legal allocation: each call must size its result itself
+    for d, shards in [('c10_mpz', 4), ('c03_mpz', 4), ('c09_mpz', 4), ('c16_comb', 2), ('hist_qf', 8), ('c04_limbs', 8), ('c12', 4), ('c13', 4), ('c13s', 4), ('c19_hist', 4), ('c06_misc', 2), ('c06_mpz', 4), ('c17_stream', 8), ('c18_misc', 2)]:
         paths += ctx.run_driver(b, d, shards=shards, timeout=900, tier='quick')
     # fence mode: every heap block between two inaccessible pages, alternately flush with the low or the high one: a read or write one limb
     # outside a block the library owns becomes a crash event
